@@ -313,10 +313,10 @@ type StoreKind int
 
 // Store kinds.
 const (
-	StoreAssign StoreKind = iota // x.f = v, x.f++, x.f op= v
-	StoreElem                    // x.f[i] = v
-	StoreBuiltin                 // delete(x.f, k), copy(x.f, ...), clear(x.f)
-	StoreDeref                   // *p = v with p a path
+	StoreAssign  StoreKind = iota // x.f = v, x.f++, x.f op= v
+	StoreElem                     // x.f[i] = v
+	StoreBuiltin                  // delete(x.f, k), copy(x.f, ...), clear(x.f)
+	StoreDeref                    // *p = v with p a path
 )
 
 // Store is a write to memory designated by an access path.
